@@ -108,7 +108,10 @@ pub fn run(case: &Value, ctx: &Ctx) -> Outcome {
             ev["site"] = json!(format!("{}:{}", reader.current_contig(), reader.current_position()));
             ev["skips"] = json!(reader
                 .current_skipped_samples()
-                .map(|(s, why)| json!({"s": s.as_ref(), "why": why.reason()}))
+                .map(|(s, why)| json!({"s": s.as_ref(), "why": match why {
+                    sfs_core::input::genotype::Skipped::Missing => "missing",
+                    sfs_core::input::genotype::Skipped::Multiallelic => "multiallelic",
+                }}))
                 .collect::<Vec<_>>());
             if let Some(c) = ev.get("contrib") {
                 let c: Vec<f64> = c.as_array().unwrap().iter().map(|x| x.as_f64().unwrap_or(f64::NAN)).collect();
@@ -357,26 +360,43 @@ fn check_cli(out: &mut Outcome, case: &Value, r: &cli::Run, args: &[String], pre
             } else {
                 out.check(summary == vec![(skipped, sites)], || format!("create/cli-{label}/skip-summary"), || json!({"got": summary, "want": [skipped, sites], "stderr": r.stderr}));
             }
+            // The stderr protocol is read by CONTENT, not by wording: a line that names a site of this call set and no sample is
+            // an announcement of a skipped site; a line that names a site and a sample is a per-sample trace line and must carry
+            // the reason the specification gives.  (The summary line names no site.)
+            let site_names: Vec<String> = case["recs"].as_array().unwrap().iter().map(|rec| format!("{}:{}", rec["contig"].as_str().unwrap(), rec["pos"])).collect();
+            let site_in = |l: &str| -> Option<String> {
+                site_names.iter().find(|s| l.match_indices(s.as_str()).any(|(i, m)| {
+                    let after = l[i + m.len()..].chars().next();
+                    let before = l[..i].chars().last();
+                    !after.map_or(false, |c| c.is_ascii_digit()) && !before.map_or(false, |c| c.is_ascii_alphanumeric())
+                })).cloned()
+            };
+            let sample_names: Vec<String> = case["cols"].as_array().unwrap().iter().map(|c| c.as_str().unwrap().to_string()).collect();
+            let sample_in = |l: &str| -> Option<String> {
+                let toks: Vec<&str> = l.split(|c: char| !(c.is_ascii_alphanumeric() || c == '_')).collect();
+                sample_names.iter().find(|s| toks.contains(&s.as_str())).cloned()
+            };
             // which skipped sites are announced: the first one by default, all of them from -v on
             {
                 let key = if verbose { "announced_verbose" } else { "announced_default" };
                 let want_sites: Vec<String> = if quiet { Vec::new() } else { case[key].as_array().map(|a| a.iter().map(|x| x.as_str().unwrap().to_string()).collect()).unwrap_or_default() };
-                let got_sites: Vec<String> = r.stderr.lines().filter_map(|l| {
-                    let i = l.find("Skipping site '")?;
-                    let rest = &l[i + 15..];
-                    Some(rest[..rest.find('\'')?].to_string())
-                }).collect();
+                let got_sites: Vec<String> = r.stderr.lines().filter(|l| sample_in(l).is_none()).filter_map(|l| site_in(l)).collect();
                 out.check(got_sites == want_sites, || format!("create/cli-{label}/skip-announcements"), || json!({"got": got_sites, "want": want_sites, "verbose": verbose}));
             }
             if verbose {
                 // -vv: one trace line per skipped sample, with the reason the specification gives
-                let mut want_lines: Vec<String> = Vec::new();
+                let mut want_lines: Vec<(String, String, String)> = Vec::new();
                 for (e, rec) in case["h"].as_array().unwrap().iter().zip(case["recs"].as_array().unwrap()) {
                     for s in e["skips"].as_array().unwrap() {
-                        want_lines.push(format!("Skipping sample '{}' at site '{}:{}'. Reason: '{}'.", s["s"].as_str().unwrap(), rec["contig"].as_str().unwrap(), rec["pos"], s["why"].as_str().unwrap()));
+                        want_lines.push((s["s"].as_str().unwrap().to_string(), format!("{}:{}", rec["contig"].as_str().unwrap(), rec["pos"]), s["why"].as_str().unwrap().to_lowercase()));
                     }
                 }
-                let mut got_lines: Vec<String> = r.stderr.lines().filter_map(|l| l.find("Skipping sample").map(|i| l[i..].to_string())).collect();
+                let mut got_lines: Vec<(String, String, String)> = r.stderr.lines().filter_map(|l| {
+                    let (sm, st) = (sample_in(l)?, site_in(l)?);
+                    let low = l.to_lowercase();
+                    let why = ["missing", "multiallelic"].iter().find(|w| low.contains(*w)).map(|w| w.to_string()).unwrap_or_default();
+                    Some((sm, st, why))
+                }).collect();
                 want_lines.sort();
                 got_lines.sort();
                 out.check(want_lines == got_lines, || format!("create/cli-{label}/trace-lines"), || json!({"got": got_lines, "want": want_lines}));
